@@ -162,8 +162,10 @@ def classify_restore(stmt: ast.stmt, tokvars: Dict[str, Tuple[str, str, bool]]) 
         if nm == "logging.captureWarnings" and test == "capturing_started" and len(c.args) == 1 \
                 and isinstance(c.args[0], ast.Constant) and c.args[0].value is False:
             return "FUncapture"
-        if nm == "sys.meta_path.remove" and test is None:
+        if nm == "sys.meta_path.remove" and test is None and ast.unparse(c) == "sys.meta_path.remove(meta_hook)":
             return "FMetaRemove"
+        if nm == "sys.meta_path.pop" and test is None and not c.args and not c.keywords:
+            return "FMetaPop"
         if nm in ("LOG.warning", "LOG.debug", "LOG.info"):
             return None
     if isinstance(inner, ast.Assign) and test is None and ast.unparse(inner) == "sys.path[:] = saved_sys_path":
@@ -496,7 +498,7 @@ def gen_c13_consts() -> str:
     body += "From Coq Require Import List String Bool.\nImport ListNotations.\nOpen Scope string_scope.\n"
     body += "(* what the third argument of a triple evaluates to *)\nInductive newkind := NFresh | NCopy | NSame.\n"
     body += "Record pspec := mkP { p_mod : string; p_attr : string; p_byname : bool; p_new : newkind }.\n"
-    body += "Inductive fstep := FCython | FPathRemove | FPathRestore | FUncapture | FEndPatch (k : string * string) | FMetaRemove | FPurgeModules.\n"
+    body += "Inductive fstep := FCython | FPathRemove | FPathRestore | FUncapture | FEndPatch (k : string * string) | FMetaRemove | FMetaPop | FPurgeModules.\n"
     body += "Definition outer_patched : list pspec :=\n  " + T.coq_list([pspec(x, k) for x, k in zip(s["outer"], s["outer_new"])]) + ".\n"
     body += "Definition begin_patched : list (pspec * bool) :=\n  " + T.coq_list([f"({pspec(x, k)}, {b(g)})" for (x, g), k in zip(s["begins"], s["begins_new"])]) + ".\n"
     body += "Definition inner_patched : list pspec :=\n  " + T.coq_list([pspec(x, k) for x, k in zip(s["inner"], s["inner_new"])]).replace("; ", ";\n   ") + ".\n"
